@@ -43,7 +43,7 @@ RELATED = {
     "C06": ["contracts.c03", "contracts.c05"],
     "C08": ["contracts.c13", "contracts.c13b", "contracts.c14"],
     "C09": ["contracts.c13"],
-    "C10": ["contracts.c08", "contracts.c12", "contracts.c13", "contracts.c09_bounded"],
+    "C10": ["contracts.c08", "contracts.c12", "contracts.c13", "contracts.c09_bounded", "contracts.c13_bounded"],
     "C12": ["contracts.c13", "contracts.c17", "contracts.c13_bounded"],
     "C17": ["contracts.c12", "contracts.c03_bounded", "contracts.c14"],
     "C15": ["contracts.c13_bounded"],
